@@ -159,6 +159,14 @@ class Shim(object):
         return getattr(real_threading, name)
 
 
+import sys
+
+# An unbounded recursion in the library must end at the step bound (a clean abort), not in a
+# RecursionError thrown at an arbitrary point inside the scheduler itself.
+sys.setrecursionlimit(max(sys.getrecursionlimit(), 20000))
+real_threading.stack_size(256 * 1024 * 1024)
+
+
 class Scheduler(object):
     MAX_STEPS = 4000
 
@@ -315,8 +323,11 @@ def explore(run_once, bound, limit=None):
             count += 1
             if limit is not None and count >= limit:
                 return count
+            if decisions is None:        # the caller asks to stop (it has seen enough failures)
+                return count
             chosen = [d[1] for d in decisions]
-            for i in range(len(prefix), len(decisions)):
+            # a run that hit the step bound has thousands of decisions: branch in its first part only
+            for i in range(len(prefix), min(len(decisions), 600)):
                 n, idx, cur_runnable = decisions[i]
                 for alt in range(1, n):
                     new = chosen[:i] + [alt]
